@@ -30,7 +30,7 @@ class C05(Harness):
     def bounds(self, tier):
         return {'program_length': 3 if tier == 'quick' else 4, 'max_injected_watcher_faults': 1 if tier == 'quick' else 2,
                 'two_faults_up_to_length': 0 if tier == 'quick' else 3,
-                'nesting': self.MAXNEST, 'configs': 3}
+                'nesting': self.MAXNEST, 'configs': 4}
 
     def configs(self, tier):
         cs = [
@@ -38,6 +38,9 @@ class C05(Harness):
             ('F2', [W(0, ['a'], onlychanged=True, action=['set', 'b', 2]), W(1, ['b'], onlychanged=False, queued=True),
                     W(2, ['a', 'e'], onlychanged=False, precedence=1)]),
             ('F3', [W(0, ['a', 'b'], onlychanged=True, mode='kwargs'), W(1, ['n'], onlychanged=False), W(2, ['e', 'a'], onlychanged=True, queued=True)]),
+            # a queued watcher that assigns (its downstream event waits for the end of the outer dispatch) followed by a watcher that may fail
+            ('F4', [W(0, ['a'], onlychanged=False, queued=True, action=['set', 'b', 2]), W(1, ['b'], onlychanged=False),
+                    W(2, ['a', 'e'], onlychanged=False, precedence=1)]),
         ]
         F = self.bounds(tier)['max_injected_watcher_faults']
         out = [{'name': n, 'specs': s, 'F': F} for n, s in cs]
@@ -181,6 +184,7 @@ class C05(Harness):
 
     # ---------------------------------------------------------------- probe
     PROBE = [
+        ('other-parameter', lambda w: setattr(w.o, 'e', True)),      # an unrelated assignment: anything left queued would be delivered now
         ('same', lambda w: setattr(w.o, 'a', w.o.a)),
         ('change', lambda w: setattr(w.o, 'a', w.vals[(w.tok(w.o.a) + 1) % 3 if isinstance(w.tok(w.o.a), int) and w.tok(w.o.a) < 3 else 1])),
         ('trigger', lambda w: w.o.param.trigger('a')),
@@ -254,6 +258,9 @@ class C05(Harness):
         for lvl, p in (('class', world.cls.param['k']), ('instance', o.param['k'])):
             if not p.constant:
                 vs.append(V('constant-flag-lost', '%s-level Parameter k is no longer constant; %s' % (lvl, ctx), level=lvl))
+        if not o.param._BATCH_WATCH and (o.param._events or o.param._state_watchers):
+            vs.append(V('events-left-queued', 'with no batch open, %d event(s) for %r are still queued (they would be delivered at some later unrelated assignment); %s' % (
+                len(o.param._events), sorted({e.name for e in o.param._events}), ctx)))
         if vs:
             return vs
         t = self.make_twin(cfg, world)
